@@ -226,6 +226,14 @@ def render_fn(doc, it, blk):
         rep.append((da["start"], da["end"], "/* debug_assert dropped */"))
     for uc in it.get("underscore_closures", []):
         rep.append((uc["start"], uc["end"], "_e"))
+    # $LOOPVAR<n> / $LOOPEXPR<n> in inserted text stand for the pattern / iterated expression of the n-th loop, so that
+    # renaming a loop variable does not break an invariant
+    def _subst_loopvars(t):
+        for n, lp in enumerate(it.get("loops", [])):
+            if "pat" in lp:
+                t = t.replace("$LOOPVAR%d" % n, lp["pat"]).replace("$LOOPEXPR%d" % n, lp.get("expr", ""))
+        return t
+    ins = [(o, _subst_loopvars(t)) for (o, t) in ins]
     a, b = it["noattr_start"], it["end"]
     raw = doc["bytes"]
     pieces = []
@@ -241,6 +249,7 @@ def render_fn(doc, it, blk):
     pieces.append(raw[cur:b].decode("utf-8"))
     out = "".join(pieces)
     for (pat, repl) in blk.subst:
+        pat, repl = _subst_loopvars(pat), _subst_loopvars(repl)
         if pat not in out:
             raise Undecided("lost anchor: substitution source `%s` not found in `%s`" % (pat, blk.key))
         out = out.replace(pat, repl)
